@@ -180,11 +180,7 @@ def errStr : Err → String
   | .outOfDate => "outofdate"
   | .other => "err"
 
-inductive Mut where
-  | save (hs : Option Hard) (snap : Option Snap) (ents : List Entry)
-  | repl (s : Snap)
-  | mark (i : Nat)
-  | cmark (i : Nat)
+abbrev Mut := Op
 
 def snapInRange (s : Snap) : Bool := s.index ≤ maxU64 && s.term ≤ maxU64
 
@@ -202,29 +198,25 @@ def parseMut (fs : List String) : Option (Nat × Mut) :=
     let okSn : Bool := match sn with
       | some x => snapInRange x
       | none => true
-    if s < 3 ∧ 1 ≤ first ∧ first + es.length < 9223372036854775808 ∧ okHs ∧ okSn then pure (s, Mut.save hs sn es) else none
+    if s < 3 ∧ 1 ≤ first ∧ first + es.length < 9223372036854775808 ∧ okHs ∧ okSn then pure (s, Op.save hs sn es) else none
   | ["repl", s, sn] => do
     let s ← s.toNat?
     let sn ← parseSnap sn
-    if s < 3 ∧ snapInRange sn then pure (s, Mut.repl sn) else none
+    if s < 3 ∧ snapInRange sn then pure (s, Op.repl sn) else none
   | ["mark", s, i] => do
     let s ← s.toNat?
     let i ← i.toNat?
-    if s < 3 ∧ i ≤ maxU64 then pure (s, Mut.mark i) else none
+    if s < 3 ∧ i ≤ maxU64 then pure (s, Op.mark i) else none
   | ["cmark", s, i] => do
     let s ← s.toNat?
     let i ← i.toNat?
-    if s < 3 ∧ i ≤ maxU64 then pure (s, Mut.cmark i) else none
+    if s < 3 ∧ i ≤ maxU64 then pure (s, Op.cmark i) else none
   | _ => none
 
 /-- run one mutation on both models; returns the new scope state and the model's output text -/
 def runMut (sc : Sc) (mu : Mut) : Sc × String :=
   let (pres, mres, valid) : (Except Err PStore) × (Option RaftStore) × Bool :=
-    match mu with
-    | .save hs sn es => (sc.p.save hs sn es, some (sc.m.save hs sn es), validSave sc.m hs sn es)
-    | .repl s => (sc.p.replaceSnapshot s, sc.m.replaceSnapshot s, validReplace sc.m s)
-    | .mark i => (sc.p.markApplied i, some (sc.m.markApplied i), true)
-    | .cmark i => (sc.p.markConfApplied i, some (sc.m.markConfApplied i), true)
+    (stepP? sc.p mu, stepM? sc.m mu, validOp sc.m mu)
   let (p, ptxt) := match pres with
     | .ok p => (p, "ok")
     | .error e => (sc.p, errStr e)
@@ -246,10 +238,10 @@ def judgeMut (valid : Bool) (impl : String) : String × String :=
     | none => ("viol:unparseable-output", pd)
     | some r =>
       if pres ≠ "P=ok" ∨ mres ≠ "M=ok" then ("viol:valid-mutation-refused", pd)
-      else if pd ≠ md then ("viol:pebble-differs-from-reference", pd)
-      else if !r.contiguous then ("viol:not-contiguous", pd)
       else if !r.noneBelow then ("viol:entry-below-compaction", pd)
+      else if !r.contiguous then ("viol:not-contiguous", pd)
       else if !r.termsDefinedIff then ("viol:term-defined-mismatch", pd)
+      else if pd ≠ md then ("viol:pebble-differs-from-reference", pd)
       else ("ok", pd)
   | _ => ("viol:unparseable-output", "")
 
@@ -276,7 +268,7 @@ def c14Step (st : St) (op impl : String) : St × String × String :=
   let fs := fields op
   match fs with
   | ["reopen"] =>
-    let scs := st.scs.map (fun sc => { sc with p := sc.p.reopen })
+    let scs := st.scs.map (fun sc => { sc with p := stepP sc.p Op.reopen })
     -- dump every scope (reads may persist a missing meta)
     let rd := scs.map (fun sc => let (p, r) := sc.p.reads; ({ sc with p := p }, renderReads r))
     let out := " ".intercalate ((List.range rd.length).map (fun k => s!"R{k} " ++ (rd.getD k default).2))
